@@ -164,6 +164,27 @@ def one_mode(job) -> Dict[str, Any]:
         else:
             p3 = Pipeline(nodes, trace=JsonlTraceDriver(tdir, detail="hash"))
             runner = lambda: p3.process(payload())
+    elif mode == "cli":
+        # the command-line way: the same pipeline FILE (declaring its extensions) is loaded and launched again and again
+        import contextlib
+        import io
+        import yaml
+        from semantiva import cli as _cli
+
+        ydir = _tempfile.mkdtemp(prefix="vc18cli-")
+        ypath = _os.path.join(ydir, "p.yaml")
+        doc = {"extensions": ["semantiva-examples", "verif_ext"], "pipeline": {"nodes": nodes}}
+        if PROGRAM_CTX.get(prog):
+            return {"prog": prog, "mode": mode, "samples": {}}        # (mapping-valued context cannot be given on the command line)
+        with open(ypath, "w") as fh:
+            yaml.safe_dump(doc, fh, sort_keys=False)
+
+        def runner():
+            with contextlib.redirect_stdout(io.StringIO()), contextlib.redirect_stderr(io.StringIO()):
+                try:
+                    _cli.main(["run", ypath, "-q"])
+                except SystemExit:
+                    pass
     elif mode == "launch":
         # exactly what cli._run does: one Pipeline object, set_run_metadata + process per planned run
         p2 = Pipeline(nodes)
@@ -264,10 +285,10 @@ def check(tier: str) -> int:
     run.add_tlc(sens, count_states=False)
     cps = (20, 60, 180) if tier == "quick" else CHECKPOINTS
     progs = list(PROGRAMS)
-    jobs = [{"prog": p, "mode": m, "checkpoints": cps} for p in progs for m in ("reused", "fresh", "launch", "queue", "fresh-traced", "reused-traced")]
+    jobs = [{"prog": p, "mode": m, "checkpoints": cps} for p in progs for m in ("reused", "fresh", "launch", "queue", "fresh-traced", "reused-traced", "cli")]
     results = []
     for chunk in pmap(modes_chunk, jobs, chunk=1, tasks_per_child=1):
-        results += chunk
+        results += [r for r in chunk if r["samples"]]
     pairs = 0
     for r in results:
         run.evaluations += cps[-1]
@@ -276,7 +297,7 @@ def check(tier: str) -> int:
         per_run = {}
         for kind, name, d in g:
             per_run[f"{kind}:{name}"] = round(d / (cps[2] - cps[1]), 2)
-            run.violation(f"{kind}-growth:{r['mode'].replace('-traced', '')}:{name}",      # traced variants: same way of repeating
+            run.violation(f"{kind}-growth:{r['mode'].replace('-traced', '').replace('cli', 'fresh')}:{name}",      # traced variants / command line: same way of repeating (fresh objects per run)
                           f"program {r['prog']}, {r['mode']}: {kind} counter {name} grows by {d} between run {cps[1]} and run {cps[2]} "
                           f"({d / (cps[2] - cps[1]):.2f} per run) -- the cost of run N depends on N", {"prog": r["prog"], "mode": r["mode"]})
         run.extra.setdefault("growth_per_run", {})[f"{r['prog']}/{r['mode']}"] = per_run
